@@ -271,7 +271,7 @@ func runPool(c *mc.Ctx, r *mc.Result, pd PoolDef) {
 			set = append(set, rsx.RouteSpec{Method: "GET", Pattern: p})
 		}
 		for i, p := range pd.Other {
-			set = append(set, rsx.RouteSpec{Method: []string{"POST", "FOO"}[i%2], Pattern: p})
+			set = append(set, rsx.RouteSpec{Method: []string{"POST", "PING", "FOO", "GIT"}[i%4], Pattern: p})
 		}
 		evalEnv := func(e *rsx.Env, extra string) {
 			a, err := buildAux(e)
@@ -282,7 +282,8 @@ func runPool(c *mc.Ctx, r *mc.Result, pd PoolDef) {
 			r.States++
 			reqMethods := []string{"GET"}
 			if len(pd.Other) > 0 {
-				reqMethods = []string{"GET", "POST", "FOO", "PUT"}
+				// custom methods sharing length and first letter with a standard one (PING/POST, GIT/GET) have trees of their own
+				reqMethods = []string{"GET", "POST", "FOO", "PUT", "PING", "GIT", "PRI"}
 			}
 			pre := ""
 			if extra != "" {
